@@ -813,7 +813,7 @@ func newInterpreter(prog *ssa.Program, vsPkgPath string) *interpreter {
 // reached only through externals.
 var noInitPkgs = map[string]bool{
 	"runtime": true, "os": true, "syscall": true, "reflect": true, "sync": true, "sync/atomic": true,
-	"unsafe": true, "testing": true, "log": true, "net": true, "os/signal": true, "os/exec": true, "os/user": true,
+	"unsafe": true, "testing": true, "log": true, "os/signal": true, "os/exec": true, "os/user": true,
 	"runtime/debug": true, "runtime/pprof": true, "runtime/trace": true, "net/http": true, "plugin": true,
 	"crypto/rand": true, "math/rand": true, "math/rand/v2": true, "flag": true, "expvar": true,
 	"internal/poll": true, "internal/cpu": true, "internal/godebug": true, "internal/syscall/unix": true,
